@@ -4,7 +4,7 @@
 From Coq Require Import List Arith Bool NArith.
 From FFSM2 Require Import Model.TaskList Model.BitArray Model.BitStream Model.Plan Model.Ancestors Model.Machine
   Proofs.BitArrayProofs Proofs.TaskListProofs Proofs.TaskListRun Proofs.PlanProofs Proofs.MachineFrame Proofs.MachinePlan Proofs.MachineLife Proofs.GuardProofs Proofs.CycleProofs Proofs.PlanStep
-  Proofs.SerialProofs Proofs.LogProofs Proofs.MachineTop Model.Multi Generated.InitFacts Proofs.ConstructProofs Proofs.LifeMonitor Proofs.ActivationRounds Proofs.IndexSafety Proofs.FeatureProofs Model.Script Proofs.Contract Proofs.Histories Proofs.StatusBits.
+  Proofs.SerialProofs Proofs.LogProofs Proofs.MachineTop Model.Multi Generated.InitFacts Proofs.ConstructProofs Proofs.LifeMonitor Proofs.ActivationRounds Proofs.IndexSafety Proofs.FeatureProofs Model.Script Proofs.Contract Proofs.Histories Proofs.StatusBits Proofs.Worlds Model.Cxx Generated.LeafCode Proofs.LeafTactics Proofs.LeafConsts.
 Import ListNotations.
 
 (* no status or no plan ever created: nothing happens *)
@@ -110,7 +110,7 @@ Print Assumptions C09_failure_delivered.
    ever delivered *)
 Theorem C09_exists_only_by_append :
   forall (P : Type) (cfg : config) (orc : oracle P),
-         (forall (t : list (event P)) (w : who) (r : recipient) (m : method) (v : Machine.view P),
+         (forall (t : list (event P)) (w : who) (r : recipient) (m : Ancestors.method) (v : Machine.view P),
           Forall (no_append P) (orc t w r m v)) ->
          forall (s : mstate P) (op : api_op P),
          ~ append_op P op ->
@@ -125,10 +125,10 @@ Theorem C09_every_plan_step_of_every_history :
          wf_cfg cfg ->
          wf_oracle P cfg orc ->
          forall (lg : bool) (pre : list (api_op P)) (op : api_op P) (post : list (api_op P))
-           (mpre mmid mpost : method),
+           (mpre mmid mpost : Ancestors.method),
          ops_ok P cfg orc (construct P cfg orc lg) (pre ++ op :: post) ->
          is_cycle_op P op = Some (mpre, mmid, mpost) ->
-         let s := run P cfg orc lg pre in
+         let s := Machine.run P cfg orc lg pre in
          let a := active P (co P s) in
          let
          '(s3, k3) := at_plan_step P cfg orc mpre mmid mpost s in
@@ -138,7 +138,7 @@ Theorem C09_every_plan_step_of_every_history :
           wf (N.of_nat (c_n cfg)) (pd_succ (plan P (co P s3))) /\
           wf (N.of_nat (c_n cfg)) (pd_fail (plan P (co P s3))) /\
           (exists l : list (event P), tr P s3 = l ++ tr P s /\ MachineFrame.quiet P cfg a l) /\
-          run P cfg orc lg (pre ++ [op]) =
+          Machine.run P cfg orc lg (pre ++ [op]) =
           (let
            '(s4, _) := if c_plans cfg then deep_update_plans P cfg orc (s3, k3) else (s3, k3) in
             process_request P cfg orc (if c_plans cfg then upd_plan P (pd_clear_region_statuses P) s4 else s4)).
@@ -153,11 +153,11 @@ Theorem C09_failure_delivered_in_every_history :
          wf_cfg cfg ->
          wf_oracle P cfg orc ->
          forall (lg : bool) (pre : list (api_op P)) (op : api_op P) (post : list (api_op P))
-           (mpre mmid mpost : method),
+           (mpre mmid mpost : Ancestors.method),
          c_plans cfg = true ->
          ops_ok P cfg orc (construct P cfg orc lg) (pre ++ op :: post) ->
          is_cycle_op P op = Some (mpre, mmid, mpost) ->
-         let s := run P cfg orc lg pre in
+         let s := Machine.run P cfg orc lg pre in
          let
          '(s3, k3) := at_plan_step P cfg orc mpre mmid mpost s in
           pd_exists (plan P (co P s3)) = true ->
@@ -173,4 +173,26 @@ Theorem plan_invariant_exists :
   forall (P : Type) (cfg : config), 1 <= c_cap cfg <= 255 -> plan_inv_ok P cfg (PIc P cfg).
 Proof. exact (PIc_ok). Qed.
 Print Assumptions plan_invariant_exists.
+
+(* the tie to the source, by proof: the static constants of BitArrayT<N> as tools/leafcode.py translates them from
+   clang's typed AST of /repo's current bit_array.hpp / utility.hpp on every run (Generated/LeafCode.v; contain()
+   included), evaluated in the interpreter of Model/Cxx.v (C++ integer semantics), are CAPACITY = N and UNIT_COUNT =
+   ceil(N / 8) for every N up to 255 - the size the model gives the report-bit arrays and the serialized form's byte
+   count rest on *)
+Theorem C09_source_constants_are_the_model :
+  forall cap : Z,
+         BinInt.Z.le (Zpos 1) cap /\ BinInt.Z.le cap (Zpos 255) ->
+         build_consts leaf_ftable ba_consts_defs (ncapacity cap) = Some (ba_consts cap).
+Proof. exact (src_BitArray_consts). Qed.
+Print Assumptions C09_source_constants_are_the_model.
+
+(* contain(x, to) of utility.hpp, as translated from the current source, is ceil(x / to) for all one-byte operands (no
+   wrap-around in the intermediate sum) *)
+Theorem C09_source_contain_is_the_model :
+  forall x t : Z,
+         BinInt.Z.le Z0 x /\ BinInt.Z.le x (Zpos 255) ->
+         BinInt.Z.le (Zpos 1) t /\ BinInt.Z.le t (Zpos 255) ->
+         call2 leaf_ftable contain_u8_fn x t = Some (BinInt.Z.div (BinInt.Z.sub (BinInt.Z.add x t) (Zpos 1)) t).
+Proof. exact (src_contain_u8). Qed.
+Print Assumptions C09_source_contain_is_the_model.
 
